@@ -50,7 +50,7 @@ func init() {
 			d.Rule = "one run = 1 publisher (real RTSP/TCP record session or harness stream), 2-5 consumers over {rtsp-tcp, rtsp-udp, rtsp-multicast, ws-rtsp, wsp, http-flv, ws-flv} joining after tape-chosen delays, some leaving early, 30-90 packets (video/audio/RTCP, 20..20000 bytes); " +
 				"each RTP client's frames per channel map to strictly increasing published indices with byte-identical payloads, and every packet published after its PLAY answer arrives (to the end, or to its departure); FLV clients: valid FLV whose NAL/AAC payloads are published units in order, at most once. " +
 				"distinct = decision-sequence hash; non-trivial = at least one pre-emption"
-			d.RequiredProbes = []string{"fan.kind.tcp", "fan.kind.udp", "fan.kind.ws", "fan.kind.wsp", "fan.kind.flv", "fan.kind.wsflv", "fan.kind.mcast", "fan.real-pusher", "fan.left-early", "fan.complete-run-checked", "fan.wsp-pause-resume"}
+			d.RequiredProbes = []string{"fan.kind.tcp", "fan.kind.udp", "fan.kind.ws", "fan.kind.wsp", "fan.kind.flv", "fan.kind.wsflv", "fan.kind.mcast", "fan.real-pusher", "fan.left-early", "fan.complete-run-checked", "fan.wsp-pause-resume", "fan.flv-complete-run-checked"}
 		} else {
 			d.Rule = "same scenario, plus RTSP/TCP and HTTP-FLV clients that stop reading for good (2 KiB window: the server's delivery goroutine blocks in a write); the stream ends by {publisher disconnect, publisher connection reset inside a frame, publisher TEARDOWN, replacement by a new publisher, DELETE /api/v1/streams, Unregist, server shutdown} while consumers are attached, attaching or leaving; " +
 				"every attached client sees its connection closed by the server within 5 simulated seconds, the ended stream's consumer count is 0 (never negative at any sample), rtsp/flv/wsp active counters return to their start values, no UDP socket stays open, no session/delivery/conversion goroutine survives. " +
@@ -983,6 +983,35 @@ func fanCheckFLV(w *sim.World, c *fanConsumer, pubs []fanPub) {
 		}
 	}
 	lastV, lastA := -1, -1
+	haveV := map[int]bool{}
+	defer func() {
+		if w.Failed() {
+			return
+		}
+		// video units: contiguous from the first one received (cache/live seam), and for a viewer that stayed
+		// to the end complete from its GET answer on — the muxer emits one tag per unit and nothing is dropped for backlog here
+		var vids []int
+		for i, fp := range pubs {
+			if fp.nal != nil {
+				vids = append(vids, i)
+			}
+		}
+		started := false
+		for _, i := range vids {
+			if haveV[i] {
+				started = true
+			} else if started && i < lastV {
+				w.Fail("C01/gap", "%s client %s: published video unit #%d never arrived although units before and after it did (GET answered at #%d)", c.kind, c.name, i, c.after)
+				return
+			} else if c.eof && !c.left && i >= c.after {
+				w.Fail("C01/missing", "%s client %s (GET answered when %d packets had been published, stayed to the end): published video unit #%d of %d never arrived although nothing was dropped for backlog", c.kind, c.name, c.after, i, len(pubs))
+				return
+			}
+		}
+		if c.eof && !c.left {
+			w.Probe("fan.flv-complete-run-checked")
+		}
+	}()
 	for k, t := range f.Tags {
 		switch {
 		case t.Type == 9 && t.PacketType == 1:
@@ -997,6 +1026,7 @@ func fanCheckFLV(w *sim.World, c *fanConsumer, pubs []fanPub) {
 					return
 				}
 				lastV = i
+				haveV[i] = true
 			}
 		case t.Type == 8 && t.AACPacketType == 1:
 			i, ok := auIdx[string(t.AAC)]
